@@ -23,6 +23,35 @@ pub fn check_digest(ctx: &mut Ctx, d: &mut TDigestMut, exact: &Exact, shape: &st
     if n == 0 {
         return;
     }
+    // "cold" queries first: the digest may hold buffered values that no query has flushed yet, and the first
+    // rank() must already answer for all of them (serialize / quantile / cdf below would flush the buffer)
+    {
+        let nf = n as f64;
+        for j in [0usize, n / 4, n / 2, (3 * n) / 4, n - 1] {
+            let v = exact.sorted[j];
+            let t = exact.rank(v);
+            if let Some(r) = d.rank(v) {
+                let u = resolution(t, nf, k);
+                ctx.evals(1);
+                // an untied minimum / maximum is known exactly: its rank is the mid-rank of one sample
+                let untied_extreme = (j == 0 && (n == 1 || exact.sorted[1] > v)) || (j == n - 1 && (n == 1 || exact.sorted[n - 2] < v));
+                if untied_extreme && (r - t).abs() > 1.0 / nf + 1e-12 {
+                    ctx.violation(
+                        &format!("rank at the extremes off by more than one sample | shape={}", shape),
+                        format!("{}: first query after the updates: rank({}) = {} true {}", tag, v, r, t),
+                    );
+                    break;
+                }
+                if (r - t).abs() > 3.0 * u + 1.5 / nf {
+                    ctx.violation(
+                        &format!("rank error above 3 x resolution | shape={}", shape),
+                        format!("{}: first query after the updates: rank({}) = {} true {} (u(q) = {})", tag, v, r, t, u),
+                    );
+                    break;
+                }
+            }
+        }
+    }
     let img_bytes = d.serialize();
     let im = match centroids_of(d) {
         Ok(im) => im,
@@ -65,6 +94,7 @@ pub fn check_digest(ctx: &mut Ctx, d: &mut TDigestMut, exact: &Exact, shape: &st
         probes.push(exact.sorted[n - 1 - j]);
     }
     let mut worst = 0.0f64;
+    let mut worst_units = 0.0f64;
     let mut worst_at = (0.0, 0.0, 0.0);
     for &v in &probes {
         let t = exact.rank(v);
@@ -74,6 +104,10 @@ pub fn check_digest(ctx: &mut Ctx, d: &mut TDigestMut, exact: &Exact, shape: &st
         };
         let u = resolution(t, nf, k);
         let ratio = (r - t).abs() / u;
+        let units = (r - t).abs() / (t * (1.0 - t) / k + 1.0 / nf);
+        if units > worst_units {
+            worst_units = units;
+        }
         if ratio > worst {
             worst = ratio;
             worst_at = (v, r, t);
@@ -81,11 +115,25 @@ pub fn check_digest(ctx: &mut Ctx, d: &mut TDigestMut, exact: &Exact, shape: &st
     }
     ctx.evals(probes.len() as u64);
     ctx.cover_max(&format!("worst_error_over_u_{}", shape), worst);
+    ctx.cover_max(&format!("worst_error_in_units_of_q(1-q)/k+1/n_{}", shape), worst_units);
+    if n >= 1000 {
+        ctx.cover_max(&format!("worst_units_n>=1000_k{}", d.k()), worst_units);
+    }
     if worst > 3.0 {
         // the shape label is part of the signature: one exotic input family must not mask the others
         ctx.violation(
             &format!("rank error above 3 x resolution | shape={}", shape),
             format!("{}: rank({}) = {} true {} = {:.2} x u(q)", tag, worst_at.0, worst_at.1, worst_at.2, worst),
+        );
+    }
+    // Smooth distributions: inside a cluster the linear interpolation follows the data, and the error stays at a
+    // few multiples of q(1-q)/k + 1/n -- far below the cluster size u(q) that bounds it for distributions with
+    // atoms and gaps. Calibration on the repaired tree (8 seeds x 6 400 cases): worst 7.8 (sawtooth), 7.0 otherwise.
+    const SMOOTH: [&str; 8] = ["exponential", "normal", "uniform", "sorted", "reversed", "sawtooth", "tiny-magnitude", "huge-magnitude"];
+    if SMOOTH.contains(&shape) && worst_units > 12.0 {
+        ctx.violation(
+            &format!("rank error above 12 x (q(1-q)/k + 1/n) on a smooth distribution | shape={}", shape),
+            format!("{}: worst error {:.1} units (rank({}) = {} true {})", tag, worst_units, worst_at.0, worst_at.1, worst_at.2),
         );
     }
     // exact to one sample at the extremes
@@ -112,7 +160,14 @@ fn stream_case(ctx: &mut Ctx, case: &Json) {
     let shape = case.str("shape").unwrap_or("uniform").to_string();
     let n = case.u64("n").unwrap_or(1000) as usize;
     let parts = case.u64("merge_parts").unwrap_or(1) as usize;
-    let values = gen_values(&mut rng, &shape, n);
+    let mut values = gen_values(&mut rng, &shape, n);
+    // arrival order: as generated, ascending or descending (every shape, not only the uniform "sorted"/"reversed")
+    match case.u64("order").unwrap_or(0) {
+        1 => values.sort_by(|a, b| a.partial_cmp(b).unwrap()),
+        2 => values.sort_by(|a, b| b.partial_cmp(a).unwrap()),
+        _ => {}
+    }
+    ctx.cover(&format!("order_{}", case.u64("order").unwrap_or(0)));
     let mut all: Vec<f64> = vec![];
     let mut d = TDigestMut::new(k);
     if parts <= 1 {
@@ -187,7 +242,7 @@ pub fn run(ctx: &mut Ctx) {
                 .into(),
         ),
     );
-    let ks: [u16; 8] = [10, 11, 29, 30, 50, 100, 200, 500];
+    let ks: [u16; 10] = [10, 11, 12, 15, 29, 30, 50, 100, 200, 500];
     let n_cases = ctx.tier_pick(400u64, 4000);
     let mut rng = ctx.rng("cases");
     for i in 0..n_cases {
@@ -200,11 +255,25 @@ pub fn run(ctx: &mut Ctx) {
             .set("shape", shape)
             .set("n", n)
             .set("merge_parts", parts)
+            .set("order", if rng.chance(0.4) { rng.range(1, 2) } else { 0 })
             .set("seed", ctx.case_seed("td", i));
         run_case(ctx, &case);
         if i < 2 {
             ctx.sample(case);
         }
+    }
+    // the corner where the size limit of the merge matters most: small k, long streams, sorted arrival
+    {
+        let smooth = ["exponential", "normal", "uniform", "sorted", "reversed", "tiny-magnitude", "huge-magnitude"];
+        let k = [10u64, 11, 12, 15][ctx.shard % 4];
+        let case = Json::obj()
+            .set("k", k)
+            .set("shape", smooth[(ctx.shard / 4 + ctx.shard) % smooth.len()])
+            .set("n", ctx.tier_pick(100_000u64, 1_000_000))
+            .set("merge_parts", 1u64)
+            .set("order", 1 + (ctx.shard as u64 / 2) % 2)
+            .set("seed", ctx.case_seed("td-corner", 0));
+        run_case(ctx, &case);
     }
     // the witness of the listed open finding is replayed by the driver; exploration also meets the shape
 }
